@@ -2,7 +2,7 @@ import I18n.Model.Plural
 import I18n.Lemmas.EvalSpec
 import I18n.Lemmas.ParseSound
 import I18n.Lemmas.ParseString
-import I18n.Lemmas.LRSound
+import I18n.Lemmas.LRNoCrash
 import I18n.Generated.PluralGrammar
 import I18n.Spec.PluralY
 /-!
@@ -160,6 +160,27 @@ theorem lr_tables_pin :
     way C's precedence and associativity demand. -/
 theorem lr_iff_parse (ts : List PluralParse.Tok) (e : Expr) :
     PluralLR.lrParse ts = .ok e ↔ PluralParse.parseToks ts = some e := PluralLR.lrParse_ok_iff ts e
+
+/-- **… as a function.**  The LR driver never ends in the model's `crash` outcome (missing table entry, ill-shaped
+    reduction, popped bottom marker, non-`Expr` result, exhausted turn budget): on every token list it answers
+    exactly what the recursive-descent model answers. -/
+theorem lr_eq_parse (ts : List PluralParse.Tok) :
+    PluralLR.lrParse ts = match PluralParse.parseToks ts with | some e => .ok e | none => .syntaxError :=
+  PluralLR.lrParse_eq ts
+
+theorem lr_never_crashes (ts : List PluralParse.Tok) : PluralLR.lrParse ts ≠ .crash := by
+  rw [lr_eq_parse]
+  cases PluralParse.parseToks ts <;> simp
+
+/-- on strings: `gettext.parse_plural_expression` modelled with the LR driver = modelled with recursive descent -/
+theorem lr_parse_string_eq (s : List Char) : PluralLR.parse s = .inl (PluralParse.parse s) := by
+  unfold PluralLR.parse PluralParse.parse
+  cases PluralParse.lex s with
+  | syntaxError => rfl
+  | valueError => rfl
+  | ok ts =>
+    simp only [lr_eq_parse]
+    cases PluralParse.parseToks ts <;> rfl
 
 theorem lr_iff_derives (ts : List PluralParse.Tok) (e : Expr) :
     PluralLR.lrParse ts = .ok e ↔ Spec.D 0 ts e := by rw [lr_iff_parse, parse_iff_derives]
